@@ -27,10 +27,7 @@ class Grid(object):
     def __init__(self, coords, weights=None):
         self.coords = coords
 
-        # Make a copy to avoid modification from outside the class
-        if weights is not None and np.ndim(weights) > 0:
-            weights = np.array(weights)
-
+        # The setter makes a copy to avoid modification from outside the class
         self.weights = weights
 
     def copy(self):
@@ -228,6 +225,10 @@ class Grid(object):
 
     @weights.setter
     def weights(self, weights):
+        # Make a copy to avoid modification from outside the class, as the constructor does.
+        if weights is not None and np.ndim(weights) > 0:
+            weights = np.array(weights)
+
         self._weights = weights
 
     @property
